@@ -13,6 +13,7 @@ package c09
 //
 // Direct oracle (on the real code, independent of the model):
 //   C09:<module>-<begin|end>-panic / -error   a Begin/EndBlock panicked or returned an error
+//   C09:unusable-multiplier-stored             the treasury store holds a nil / non-positive / > 10^6 multiplier after an upsert
 //   C09:starved-message                        a message whose own inputs are all usable was not
 //                                              elected / priced in a block in which it had 2/3 of estimates
 
@@ -251,6 +252,16 @@ func (r *runner) do(h hop) {
 			return err
 		})
 		ok := out == 0
+		// oracle on the real store: whatever was submitted, only usable multipliers are ever stored
+		if all, err := e.f.TreasuryKeeper.GetRelayerFees(ctx); err == nil {
+			for _, rec := range all {
+				for _, f := range rec.Fees {
+					if f.Multiplicator.IsNil() || !f.Multiplicator.IsPositive() || f.Multiplicator.GT(sdkmath.LegacyNewDec(1000000)) {
+						r.run.Violate("C09:unusable-multiplier-stored", fmt.Sprintf("treasury stores relayer fee multiplicator %s for %s on %s", f.Multiplicator, rec.ValAddress, f.ChainReferenceId), replay())
+					}
+				}
+			}
+		}
 		if ok {
 			if r.fees[h.V] == nil {
 				r.fees[h.V] = map[int]*big.Int{}
